@@ -116,6 +116,23 @@ if not limits:
     die("c03_consts: no operand evaluation (recursive call of filter_by_field_with) found in its call tree")
 unbounded = all(l == "0" for _, l in limits)
 
+# ---- calls of filter_by_field_with from OUTSIDE its own tree (the entry `filter_by_field`): a call that
+#      restricts the evaluation to a candidate set (second argument not literally `None`) must evaluate
+#      unbounded (literal limit `0`): the caller keeps the candidates' relevance order and trims the tail,
+#      so stopping the inner scan after `limit` ids (in id order) would drop relevant candidates.
+ext_limits = []
+for f in sorted(bodies):
+    if f in tree:
+        continue
+    for args in call_args(bodies[f], "filter_by_field_with"):
+        if len(args) < 4:
+            die(f"c03_consts: call of filter_by_field_with in {f} has {len(args)} arguments, expected 4")
+        if args[1].strip() != "None":
+            ext_limits.append((f, args[2]))
+if not ext_limits:
+    die("c03_consts: no candidate-restricted evaluation (external call of filter_by_field_with with a candidate set) found")
+cand_unbounded = all(l == "0" for _, l in ext_limits)
+
 # ---- the B-tree scan callback
 scan_fns = [f for f in sorted(tree) if re.search(r"\btry_range_query_ids\s*\(", bodies[f])]
 if len(scan_fns) != 1:
@@ -156,6 +173,9 @@ def maxRangeIncludeKeys : Nat := {max_include}
 /-- every evaluation of a composite filter's operand (each call of `filter_by_field_with` made from
 inside its own call tree) is handed the literal limit `0` (unbounded) -/
 def compositeOperandsUnbounded : Bool := {"true" if unbounded else "false"}
+/-- every evaluation restricted to a candidate set (each call of `filter_by_field_with` from outside its
+own call tree whose candidate argument is not `None`) is handed the literal limit `0` -/
+def candidateEvaluationUnbounded : Bool := {"true" if cand_unbounded else "false"}
 /-- the callback of the B-tree `Field` scan contains an early `return false` (a stop in key order) -/
 def fieldArmStopsEarly : Bool := {"true" if field_stops_early else "false"}
 
@@ -163,6 +183,7 @@ theorem gen_maxSearchLimit_pos : 0 < maxSearchLimit := by decide
 /-- the candidate breadth is never narrower than the page: `limit ≤ top_k` for every clamped limit -/
 theorem gen_searchBreadth_covers_page : 1 ≤ searchFactor ∧ maxSearchLimit ≤ searchCap := by decide
 theorem gen_compositeOperandsUnbounded : compositeOperandsUnbounded = true := by decide
+theorem gen_candidateEvaluationUnbounded : candidateEvaluationUnbounded = true := by decide
 theorem gen_fieldArmUnbounded : fieldArmStopsEarly = false := by decide
 
 end AndaVerif.Gen.FilterConsts
